@@ -73,7 +73,7 @@ func autoDetectPacketSize(r io.Reader) (packetSize int, err error) {
 				return
 			} else if n == -1 {
 				var ls = packetSize - (l - packetSize)
-				if _, err = r.Read(make([]byte, ls)); err != nil {
+				if _, err = io.ReadFull(r, make([]byte, ls)); err != nil {
 					err = fmt.Errorf("astits: reading %d bytes to sync reader failed: %w", ls, err)
 					return
 				}
@@ -99,7 +99,11 @@ func peek(r io.Reader, b []byte) (shouldRewind bool, err error) {
 		return false, nil
 	}
 
-	_, err = r.Read(b)
+	// A single Read is allowed to return less than what was asked for
+	// An input shorter than b is not an error here: the caller decides based on what could be read
+	if _, err = io.ReadFull(r, b); err == io.ErrUnexpectedEOF {
+		err = nil
+	}
 	shouldRewind = true
 	return
 }
